@@ -6,6 +6,8 @@
     txRoot     = an ORDER-SENSITIVE digest of the list (as DeriveSha is), receiptRoot/uncleHash = list lengths
 -/
 import Aqv.Lemmas.BlockImportChain
+import Aqv.Lemmas.BlockImportCache
+import Aqv.Lemmas.BlockImportRoot
 namespace Aqv.BlockImport.Toy
 
 open Aqv.BlockImport
@@ -54,5 +56,47 @@ def noCoin : Nat → Bool := fun _ => false
 /-- the store after importing A1, then [B1, B2]: head = A1 (height 1, td 20), B2 known with state at height 2 (td 12). -/
 def forked (k : Bool) : Store Nat Nat :=
   (genesisStore comp g 0).run (chain k) cfg [.insert [a1] noCoin, .insert [b1, b2] noCoin]
+
+
+/-! a toy byte codec for Layer A′: keys in unary (injective, invertible), one-byte values. -/
+
+def unary (n : Nat) : Bytes := List.replicate n 1
+def unaryInv (bs : Bytes) : Option Nat := if bs.all (· == 1) then some bs.length else none
+
+theorem unaryInv_unary (n : Nat) : unaryInv (unary n) = some n := by
+  unfold unaryInv unary
+  simp
+
+theorem unary_of_inv (bs : Bytes) (n : Nat) (h : unaryInv bs = some n) : unary n = bs := by
+  unfold unaryInv at h
+  split at h
+  · rename_i ha
+    cases h
+    unfold unary
+    induction bs with
+    | nil => rfl
+    | cons x rest ih =>
+      simp only [List.all_cons, Bool.and_eq_true, beq_iff_eq] at ha
+      simp only [List.length_cons, List.replicate_succ]
+      rw [ih ha.2, ha.1]
+  · cases h
+
+def codec : Codec :=
+  { slotKey := unary, slotInv := unaryInv, wordVal := fun v => [UInt8.ofNat v], addrKey := unary, addrInv := unaryInv,
+    leafVal := fun l => [UInt8.ofNat l.nonce, UInt8.ofNat l.balance, UInt8.ofNat l.sroot] }
+
+theorem codec_ok : codec.Ok :=
+  { slot_inv := unaryInv_unary, slot_key := unary_of_inv, word_ne := fun _ _ => by simp [codec],
+    addr_inv := unaryInv_unary, addr_key := unary_of_inv, leaf_ne := fun _ => by simp [codec] }
+
+/-- a fresh real-trie StateDB: empty tries, two dirty accounts. -/
+def csdb : CSDB :=
+  { base := { trie := fun _ => none,
+              objs := upd (upd (fun _ => none) 1 (some { nonce := 1, balance := 5, codeHash := 0, sroot := 0, storage := fun _ => 0,
+                                                           dirty := upd (upd (fun _ => none) 5 (some 7)) 6 (some 3), suicided := false, deleted := false }))
+                          2 (some { nonce := 0, balance := 9, codeHash := 0, sroot := 0, storage := fun _ => 0,
+                                    dirty := fun _ => none, suicided := false, deleted := false }),
+              dirty := fun a => a == 1 || a == 2, fault := false },
+    hists := fun _ => [], acct := [] }
 
 end Aqv.BlockImport.Toy
